@@ -19,17 +19,17 @@ Section Loop.
   Variable classify : str -> line_class.
   Variable dispatchable : option str -> list str -> bool.
 
-  Definition flush (cur : option str) (data : list str) : list sse_event :=
+  Definition sse_flush (cur : option str) (data : list str) : list sse_event :=
     if dispatchable cur data then [(cur, data)] else [].
 
   (** The [for line in lines] loop of _process_sse_text, followed by
       "process any remaining event".  [lines] already had rstrip("\r"). *)
   Fixpoint sse_run (cur : option str) (data : list str) (lines : list str) : list sse_event :=
     match lines with
-    | [] => flush cur data
+    | [] => sse_flush cur data
     | l :: ls =>
         match l with
-        | [] => flush cur data ++ sse_run None [] ls
+        | [] => sse_flush cur data ++ sse_run None [] ls
         | _ :: _ =>
             match classify l with
             | LSkip => sse_run cur data ls
